@@ -96,7 +96,17 @@ func c06Failing(m *Model) []string {
 		for _, o := range sortedKeys(m.Services) {
 			if o != n {
 				ops = append(ops, fmt.Sprintf("deploy %s h=%s,z.example.com p=%s", o, h, s.Paths[0]))
+				// the taken pair comes last: after the service's own first host, and after a host nobody has
+				if oh := m.Services[o].Hosts[0]; oh != "" && oh != h && h != "-" {
+					ops = append(ops, fmt.Sprintf("deploy %s h=%s,%s p=%s", o, oh, h, s.Paths[0]))
+				}
+				if h != "-" {
+					ops = append(ops, fmt.Sprintf("deploy %s h=x.example.com,%s p=%s", o, h, s.Paths[0]))
+				}
 			}
+		}
+		if h != "-" {
+			ops = append(ops, fmt.Sprintf("deploy s3 h=x.example.com,%s p=%s n=2", h, s.Paths[0]))
 		}
 	}
 	return ops
